@@ -346,7 +346,7 @@ def run_hyp(desc):
 
 
 FS_NAMES = ['~', '~root', '~nosuchuser', '*', '?', '[a]', '{a,b}', '!x', '-x', 'a|b', '@(a)', '!(a)', 'a b', 'a\\b', '(', ')', '[', ']', '{', '}', 'a', 'ab', 'x',
-            '~a', '-', '!', '**', 'a~', '[!a]', '+(a)', '.~', '~.', 'A', 'AB', 'A|B', '{A,B}']
+            '~a', '-', '!', '**', 'a~', '[!a]', '+(a)', '.~', '~.', 'A', 'AB', 'A|B', '{A,B}', '!~', '-~', '!~root', '-~root', '~root']
 FS_SPEC = [('f', n) for n in FS_NAMES if '/' not in n] + [('d', 'd~'), ('f', 'd~/~'), ('d', 'D~'), ('f', 'D~/~')]
 FS_DEEP = ['d~/~', 'D~/~']
 FS_PLATS = [[], ['FORCEWIN'], ['FORCEWIN', 'FORCEUNIX']]
